@@ -322,6 +322,13 @@ theorem wire_is_serial (P : Progs) (hP : WF P) (born : Tid → Bool) (cs : List 
     (he : s.events = pre ++ Event.got t :: (mid ++ Event.op u k :: post)) (hno : ∀ e ∈ mid, e ≠ Event.rel t) : u = t :=
   exclusive Sys.init s.lock pre mid post t u k (by rw [← he]; exact events_accepted P hP born cs s h) hno
 
+/-- the event trace IS the wire: the transport operations of the await points the tasks completed (`log`: task, round,
+    await point of its program) and the `op` events are the same sequence of (task, write / read / reconnect) - so
+    `wire_is_serial` speaks about the operations of the callers' programs (`requestX` traces) -/
+theorem events_are_the_wire (P : Progs) (born : Tid → Bool) (cs : List Choice) (s : MSys)
+    (h : mrun P (MSys.init P born) cs = some s) : s.log.filterMap wireOfLog = s.events.filterMap wireOfEvent :=
+  run_wire P cs _ s h rfl
+
 /-- … and at the level of single steps: a task whose next await point touches the transport holds the lock, and
     nobody else does -/
 theorem wire_op_by_holder (P : Progs) (hP : WF P) (born : Tid → Bool) (cs : List Choice) (s : MSys)
